@@ -151,6 +151,23 @@ def _shape():
 class Captured(list):
     shape = None
     classes = ()
+    interp = None
+
+
+def interp_config():
+    """Interpreter-wide configuration a library call has no business changing."""
+    import warnings
+    return (('recursionlimit', sys.getrecursionlimit()), ('switchinterval', sys.getswitchinterval()),
+            ('int_max_str_digits', sys.get_int_max_str_digits() if hasattr(sys, 'get_int_max_str_digits') else None),
+            ('warnings.filters', len(warnings.filters)))
+
+
+def restore_interp(cfg):
+    d = dict(cfg)
+    sys.setrecursionlimit(d['recursionlimit'])
+    sys.setswitchinterval(d['switchinterval'])
+    if d.get('int_max_str_digits') is not None:
+        sys.set_int_max_str_digits(d['int_max_str_digits'])
 
 
 def _library_classes():
@@ -171,6 +188,7 @@ def capture():
     c = Captured((label, obj, obj.copy()) for label, obj in containers())
     c.shape = _shape()
     c.classes = [(cls, dict(vars(cls))) for cls in _library_classes()]
+    c.interp = interp_config()
     return c
 
 
